@@ -1,6 +1,6 @@
 (* C18: logging is transparent (results, port and reader state do not depend on the logger
    configuration or on the log buffers), and the shape of the I/O log. *)
-From GV Require Import Base.Bytes Base.Hex Base.LE Vedirect.Frame Vedirect.Port Vedirect.Driver.
+From GV Require Import Base.Bytes Base.Hex Base.LE Vedirect.Frame Vedirect.Port Vedirect.Driver Vedirect.DriverFacts.
 
 Definition sim (a b : vdstate) : Prop := rd a = rd b /\ pt a = pt b.
 
@@ -133,3 +133,105 @@ Proof.
       let H := fresh in assert (H : snd (map_res f x) = snd x) by (destruct x as [[?|?| |] ?]; reflexivity); rewrite H end;
     auto.
 Qed.
+
+Lemma map_res_snd_eq {A B} (f : A -> res B) x : snd (map_res f x) = snd x.
+Proof. destruct x as [[a|e| |] s]; reflexivity. Qed.
+
+(* ---- the I/O log: with the logger on, the tx part of a typed call's line is exactly the
+        frames successfully written during the call ---- *)
+
+Definition tx_inv (s : vdstate) (w0 : list (list byte)) (t0 : list byte) : Prop :=
+  exists ws, written (pt s) = w0 ++ ws /\ io_tx s = t0 ++ concat ws.
+
+Lemma tx_inv_refl s : tx_inv s (written (pt s)) (io_tx s).
+Proof. exists []. now rewrite !app_nil_r. Qed.
+
+Section TxLog.
+  Context (c : cfg) (Hlog : cfg_iolog c = true).
+
+  Lemma recv_until_tx delim s w0 t0 : tx_inv s w0 t0 -> tx_inv (snd (recv_until c delim s)) w0 t0.
+  Proof.
+    intros (ws & W & T). unfold recv_until.
+    pose proof (DriverFacts.read_until_wstate (ru_fuel (rd s) (pt s)) delim [] (rd s) (pt s)) as H.
+    destruct (read_until _ _ _ _ _) as [[[line|e part|] r'] p']; cbn [snd] in *;
+      unfold DriverFacts.wstate in H; injection H as Hw _ _ _; exists ws; cbn [pt io_tx set_rd_pt]; rewrite Hw; auto.
+  Qed.
+
+  Lemma receive_response_tx fuel : forall s w0 t0, tx_inv s w0 t0 -> tx_inv (snd (receive_response fuel c s)) w0 t0.
+  Proof.
+    induction fuel as [|f IH]; intros s w0 t0 H; cbn [receive_response]; [exact H|].
+    pose proof (recv_until_tx c_colon s w0 t0 H) as H1.
+    destruct (recv_until c c_colon s) as [[x|e| |] s1]; cbn [snd] in *; try exact H1.
+    pose proof (recv_until_tx c_nl s1 w0 t0 H1) as H2.
+    destruct (recv_until c c_nl s1) as [[line|e| |] s2]; cbn [snd] in *; try exact H2.
+    destruct line as [|b l]; [exact H2|]. destruct (beqb b c_A); [now apply IH|exact H2].
+  Qed.
+
+  Lemma send_receive_tx idle cmd data s w0 t0 : tx_inv s w0 t0 -> tx_inv (snd (send_receive c idle cmd data s)) w0 t0.
+  Proof.
+    intros H. unfold send_receive.
+    assert (H0 : tx_inv (if idle then flush_receiver s else s) w0 t0).
+    { destruct idle; [|exact H]. destruct H as (ws & W & T). exists ws. unfold flush_receiver, port_flush. cbn. auto. }
+    destruct H0 as (ws & W & T). unfold vd_write, port_write.
+    destruct (match wfaults (pt _) with b :: _ => b | [] => false end); cbn [fst snd].
+    - exists ws. cbn. auto.
+    - apply receive_response_tx. exists (ws ++ [tx_frame_data cmd data]). cbn [pt written io_tx]. rewrite Hlog. cbn [andb].
+      rewrite W, T. rewrite !app_assoc. split; [reflexivity|]. rewrite concat_app. cbn [concat]. now rewrite app_nil_r, app_assoc.
+  Qed.
+
+  Lemma ve_command_tx idle cmd addr s w0 t0 : tx_inv s w0 t0 -> tx_inv (snd (ve_command c idle cmd addr s)) w0 t0.
+  Proof.
+    intros H. unfold ve_command. pose proof (send_receive_tx idle cmd (cmd_param cmd addr) s w0 t0 H) as H1.
+    destruct (send_receive c idle cmd (cmd_param cmd addr) s) as [[x|e| |] s1]; exact H1.
+  Qed.
+
+  Lemma ve_command_get_loop_tx tries : forall idle addr s w0 t0,
+    tx_inv s w0 t0 -> tx_inv (snd (ve_command_get_loop tries c idle addr s)) w0 t0.
+  Proof.
+    induction tries as [|t IH]; intros idle addr s w0 t0 H; cbn [ve_command_get_loop]; [exact H|].
+    pose proof (ve_command_tx idle 7 addr s w0 t0 H) as H1.
+    destruct (ve_command c idle 7 addr s) as [[raw|e| |] s1]; cbn [snd] in *; try exact H1; try (now apply IH).
+    destruct (classify_get addr raw); [now apply IH|exact H1|exact H1].
+  Qed.
+
+  (* every typed call emits exactly one line; its tx part is what was logged before the call
+     followed by the frames successfully written during the call, in order *)
+  Theorem typed_call_one_line idle k s :
+    match k with CPing | CDeviceId | CGetUint _ | CGetInt _ | CGetString _ => True | _ => False end ->
+    exists ws rx,
+      written (pt (snd (do_call c idle k s))) = written (pt s) ++ ws /\
+      io_lines (snd (do_call c idle k s)) = io_lines s ++ [(io_tx s ++ concat ws, rx)] /\
+      io_tx (snd (do_call c idle k s)) = [] /\ io_rx (snd (do_call c idle k s)) = [].
+  Proof.
+    intros Hk.
+    assert (Hend : forall x, tx_inv x (written (pt s)) (io_tx s) -> io_lines x = io_lines s ->
+              exists ws rx, written (pt (io_line_end c x)) = written (pt s) ++ ws /\
+                            io_lines (io_line_end c x) = io_lines s ++ [(io_tx s ++ concat ws, rx)] /\
+                            io_tx (io_line_end c x) = [] /\ io_rx (io_line_end c x) = []).
+    { intros x (ws & W & T) L. exists ws, (io_rx x). unfold io_line_end. rewrite Hlog. cbn. rewrite W, T, L. auto. }
+    assert (Lines : forall f st, io_lines (snd (receive_response f c st)) = io_lines st).
+    { induction f as [|f IH]; intros st; cbn [receive_response]; [reflexivity|].
+      assert (R : forall d s0, io_lines (snd (recv_until c d s0)) = io_lines s0).
+      { intros d s0. unfold recv_until. destruct (read_until _ _ _ _ _) as [[[line|e part|] r'] p']; reflexivity. }
+      pose proof (R c_colon st) as H1. destruct (recv_until c c_colon st) as [[x|e| |] s1]; cbn [snd] in *; try exact H1.
+      pose proof (R c_nl s1) as H2. destruct (recv_until c c_nl s1) as [[line|e| |] s2]; cbn [snd] in *; try congruence.
+      destruct line as [|b l]; [cbn [snd]; congruence|]. destruct (beqb b c_A); [rewrite IH|cbn [snd]]; congruence. }
+    assert (SR : forall idle0 cmd data st, io_lines (snd (send_receive c idle0 cmd data st)) = io_lines st).
+    { intros. unfold send_receive, vd_write.
+      assert (F : io_lines (if idle0 then flush_receiver st else st) = io_lines st) by (destruct idle0; [unfold flush_receiver; destruct (port_flush _)|]; reflexivity).
+      destruct (port_write _ _) as [[|] p']; cbn [snd]; [rewrite Lines|]; exact F. }
+    assert (VC : forall idle0 cmd a st, io_lines (snd (ve_command c idle0 cmd a st)) = io_lines st).
+    { intros. unfold ve_command. pose proof (SR idle0 cmd (cmd_param cmd a) st) as H.
+      destruct (send_receive _ _ _ _ _) as [[x|e| |] s1]; exact H. }
+    assert (VG : forall t idle0 a st, io_lines (snd (ve_command_get_loop t c idle0 a st)) = io_lines st).
+    { induction t as [|t IH]; intros; cbn [ve_command_get_loop]; [reflexivity|].
+      pose proof (VC idle0 7 a st) as H. destruct (ve_command c idle0 7 a st) as [[raw|e| |] s1]; cbn [snd] in *; try exact H.
+      - destruct (classify_get a raw); [rewrite IH|cbn [snd]..]; exact H.
+      - rewrite IH; exact H. }
+    destruct k as [| |a|a|a|a|cmd a]; try contradiction; cbn [do_call];
+      unfold ping, get_device_id, get_uint, get_int, get_string, ve_command_get, typed; cbn [snd];
+      rewrite map_res_snd_eq; apply Hend;
+      first [ apply send_receive_tx; apply tx_inv_refl | apply ve_command_tx; apply tx_inv_refl
+            | apply ve_command_get_loop_tx; apply tx_inv_refl | apply SR | apply VC | apply VG ].
+  Qed.
+End TxLog.
